@@ -103,6 +103,7 @@ AbstractOptimizer& AbstractOptimizer::operator=(const AbstractOptimizer& opt)
 
   nbEvalMax_              = opt.nbEvalMax_;
   nbEval_                 = opt.nbEval_;
+  currentValue_           = opt.currentValue_;
   verbose_                = opt.verbose_;
   isInitialized_          = opt.isInitialized_;
   // In case of AutoParameter instances, we must actualize the pointers toward messageHandler_:
